@@ -484,6 +484,8 @@ def check_depth_counter(c: Ctx) -> None:
     def delta(w) -> tuple[str, int] | None:
         """('set', k) for `_depth = k`, ('add', k) for `_depth += k` / `_depth = _depth + k`."""
         n = w.node
+        if isinstance(n, ast.AnnAssign) and n.value is not None:
+            n = ast.Assign(targets=[n.target], value=n.value)
         tgt = U(n.target) if isinstance(n, ast.AugAssign) else (U(n.targets[0]) if isinstance(n, ast.Assign) and len(n.targets) == 1 else None)
         if tgt is None:
             return None
